@@ -93,7 +93,7 @@ def replay(ctx, pid, mode, behaviours, r1cs_share, nproc=12):
 
 def replay_file(ctx, path):
     case = json.load(open(path))
-    res = ctx.run_vh(["gadget-tiny" if case.get("kind") == "gadget-tiny" else "mtb"], case["cases"])
+    res = ctx.run_vh(["gadget-tiny"], case["cases"], tags=("g_merkle",)) if case.get("kind") == "gadget-tiny" else ctx.run_vh(["mtb"], case["cases"])
     bad = [x for x in res if not x["ok"]]
     for x in bad:
         print("REPRODUCED:", json.dumps(x)[:700])
@@ -103,13 +103,20 @@ def replay_file(ctx, path):
 def tiny_relation(ctx, mode, configs, nproc=12):
     """Leg (a): the gadget relation on EVERY tuple over a tiny field (GadgetTiny.tla accepted set = accepted set of the Go gadget in the test engine)."""
     total = 0
+    try:
+        ctx.build_harness(tags=("g_merkle",))
+    except Infra as e:
+        # this leg is written against the InsertionProof / DeletionProof gadget structs; if their API was refactored it cannot be
+        # compiled — the other legs (full circuits) do not depend on it
+        ctx.cov["tiny_field_relation"] = "skipped: gadget-level driver does not compile against this tree (%s)" % str(e).splitlines()[-1][:160]
+        return 0
     for p, d, b in configs:
         c = ('SPECIFICATION Spec\nCONSTANTS FieldMode = "small"\nP = %d\nDepth = %d\nBatch = %d\nKind = "%s"\nINVARIANTS Export\nCHECK_DEADLOCK FALSE\n' % (p, d, b, mode))
         r = ctx.tlc("GadgetTiny", c, label="GadgetTiny %s F_%d depth=%d batch=%d (all tuples)" % (mode, p, d, b), timeout=3000, heap="24g")
         acc = r["traces"]
         jobs = [dict(p=p, depth=d, batch=b, kind=mode, accepted=acc, part=k, parts=nproc) for k in range(nproc)]
         with ThreadPoolExecutor(nproc) as ex:
-            results = list(ex.map(lambda j: ctx.run_vh(["gadget-tiny"], j, timeout=3000), jobs))
+            results = list(ex.map(lambda j: ctx.run_vh(["gadget-tiny"], j, timeout=3000, tags=("g_merkle",)), jobs))
         ev = 0
         for res in results:
             for x in res:
